@@ -168,8 +168,9 @@ func checkOmitModel(d *lib.Driver, c *c15Case) error {
 			f := lib.Finding{Kind: "violation", Class: "omit:tight-vs-indent:" + omitWriters[t].model, Replay: rp,
 				What: fmt.Sprintf("with OmitNil=%v OmitEmpty=%v %s describes %s and %s describes %s", s.OmitNil, s.OmitEmpty,
 					omitWriters[t].enc, got[t], omitWriters[in].enc, got[in])}
-			// known: under OmitNil without OmitEmpty the tight map walker drops an empty string value, exactly
-			// as the model says for both writers
+			// (until /repo d7a5508 a known finding: under OmitNil without OmitEmpty the tight map walker dropped an
+			// empty string value; the entry is in the `fixed` list now, so this branch is dead unless the id is
+			// listed as known again)
 			if s.OmitNil && !s.OmitEmpty && got[t] == model[t] && got[in] == model[in] && lib.HasKnown(knownList, omitTightID) {
 				f.Kind, f.KnownID, f.Class = "known", omitTightID, f.Class+":"+omitTightID
 			}
